@@ -66,7 +66,8 @@ def catches(meth, clsname):
     return out
 
 dif = make_if()
-d = {"default_hdr_ver": dif._hdr_ver}
+_hv = [k for k in vars(dif) if k == "_hdr_ver"] or [k for k in vars(dif) if "hdr_ver" in k]
+d = {"default_hdr_ver": getattr(dif, _hv[0])}
 dif.recv_tx_msg(); d["tx_recv"] = dif.sock.asked
 dif.sock.asked = None
 dif.recv_rx_msg(); d["rx_recv"] = dif.sock.asked
